@@ -1444,6 +1444,54 @@ fn subscribe_and_unsubscribe_take_effect_however_they_are_batched() {
     report(name, "C01,C17", "plain and shared filter x subscribed beforehand or not x all sequences of 1..4 packets over {own publish on the topic, UNSUBSCRIBE, SUBSCRIBE, unrelated publish} x sent as one batch / one at a time", cases, fail);
 }
 
+/// C01 / C06: repeating a subscription with another QoS — the SUBACK grants the QoS asked for now, and that is the QoS
+/// the following forwards carry (each message still once)
+// @native props=C01,C06 tier=quick fn=Router::prepare_filter (existing subscription)+handle_device_payload(Subscribe)
+#[test]
+fn repeated_subscription_with_another_qos_is_granted_and_applied() {
+    let name = "rumqttd::Router::prepare_filter#repeated_subscription_applies_the_granted_qos";
+    let mut cases = 0u64;
+    let mut fail: Option<String> = None;
+    'outer: for q1 in 0..3u8 {
+        for q2 in 0..3u8 {
+            for caught_up in [true, false] {
+                for batch in [false, true] {
+                    cases += 1;
+                    let desc = format!("SUBSCRIBE v/+ QoS {}, {}then SUBSCRIBE v/+ QoS {}{}; then two QoS 2 publishes on v/1", q1, if caught_up { "one message read, " } else { "" }, q2, if batch { " (both SUBSCRIBEs in one batch)" } else { "" });
+                    let mut r = new_router();
+                    let c = connect(&mut r, "c", true).unwrap();
+                    let p = connect(&mut r, "p", true).unwrap();
+                    if batch {
+                        send(&mut r, &c, vec![subscribe(1, &[("v/+", q1)]), subscribe(2, &[("v/+", q2)])]);
+                    } else {
+                        send(&mut r, &c, vec![subscribe(1, &[("v/+", q1)])]);
+                        if caught_up {
+                            send(&mut r, &p, vec![publish("v/1", 0, 0, "warm", false)]);
+                            let _ = receive_all(&mut r, &c);
+                        }
+                        send(&mut r, &c, vec![subscribe(2, &[("v/+", q2)])]);
+                    }
+                    let acks = shown(&drain(&mut r, &c));
+                    let granted: Vec<&String> = acks.iter().filter(|a| a.starts_with("SUBACK(2,")).collect();
+                    if granted.len() != 1 {
+                        fail = Some(format!("input=[{}] detail=[replies {:?}: no single SUBACK for the second SUBSCRIBE]", desc, acks));
+                        break 'outer;
+                    }
+                    send(&mut r, &p, vec![publish("v/1", 2, 70, "a", false), pubrel(70)]);
+                    send(&mut r, &p, vec![publish("v/1", 2, 71, "b", false), pubrel(71)]);
+                    let got = receive_all(&mut r, &c);
+                    let want: Vec<(String, String, u8, bool)> = vec![("v/1".into(), "a".into(), q2, false), ("v/1".into(), "b".into(), q2, false)];
+                    if got != want {
+                        fail = Some(format!("input=[{}] detail=[received (topic, payload, QoS, retained) {:?}, expected {:?}: the last SUBACK granted QoS {}]", desc, got, want, q2));
+                        break 'outer;
+                    }
+                }
+            }
+        }
+    }
+    report(name, "C01,C06", "QoS 0/1/2 x QoS 0/1/2 x request parked (caught up) or still tracked x two SUBSCRIBEs in one batch or apart", cases, fail);
+}
+
 /// C01/C09: outgoing-buffer-full back-pressure (Unschedule -> Busy -> Ready) neither loses nor repeats messages
 // @native props=C01,C09 tier=quick fn=Router::{consume,forward_device_data}+Outgoing::push_forwards (BufferFull path)
 #[test]
